@@ -249,6 +249,16 @@ def check_frame(c):
         tu = F.TransferFrameDataField.unpack(raw_tfdf + b"\xee\xee", False, len(raw_tfdf), None)
         eq(devs, "tfdf.unpack_without_frame_type", (int(tu.tfdz_contr_rules), int(tu.uslp_ident), tu.fhp_or_lvop, bytes(tu.tfdz).hex()), (c["rule"], c["upid"], c["pointer"], c["tfdz"]))
         eq(devs, "tfdf.len_without_frame_type", tu.len(), len(raw_tfdf))
+    # another managed-parameter object (another virtual channel) is switched to "FECF / insert zone present" in place; the parameters of
+    # this channel - built before and after - still say what they said
+    props_before = properties_for(F, c, len(want))
+    other_props = properties_for(F, {**c, "insert_zone": None, "fecf": None}, len(want))
+    other_props.fecf_properties.present = True
+    other_props.fecf_properties.size = 2
+    other_props.insert_zone_properties.present = True
+    other_props.insert_zone_properties.size = 3
+    for tag_p, pr in (("built_before", props_before), ("built_after", properties_for(F, c, len(want)))):
+        eq(devs, f"frame.dec.obs.after_another_parameter_object_was_changed.{tag_p}", obs_frame(F.TransferFrame.unpack(bytes(want), ft, pr)), want_obs)
     # managed parameters that carry a configured size for a field that is switched off (the size is then irrelevant)
     over = {}
     if c["insert_zone"] is None:
